@@ -67,6 +67,20 @@ def block_seeded():
             res = "not swept yet"
         s += "| `%s` | %s | %s | %s |\n" % (i, first_sentence(m.get("what_changed", "")).replace("|", "\\|"), res, hist.get(i, "caught at first try").replace("|", "\\|"))
     s += "\n%d archived changes; %d caught in the last sweep (`bin/seedsweep`, /repo HEAD at the time of the sweep is recorded in `seeded/STATUS.json`).\n" % (len(ids), n_c)
+    # how the checks fared when each change was FIRST tried, per wave (ids -1..-3 = wave 1, -4..-6 = wave 2, -7..-9 = wave 3)
+    waves = {}
+    for i in ids:
+        k = int(i.split("-")[1])
+        w = (k - 1) // 3 + 1
+        t = hist.get(i, "caught at first try")
+        c = "missed" if "first version: missed" in t else ("caught without a failing input (fact / model mismatch only)" if ("only" in t and "first version" in t) or "no-failing-input-found" in t else "caught with a failing input")
+        waves.setdefault(w, {}).setdefault(c, 0)
+        waves[w][c] += 1
+    s += "\nAt the FIRST trial of each change (before anything was strengthened for it):\n\n| wave | changes | caught with a failing input | caught without one | missed |\n|---|---|---|---|---|\n"
+    for w in sorted(waves):
+        d = waves[w]
+        s += "| %d | %d | %d | %d | %d |\n" % (w, sum(d.values()), d.get("caught with a failing input", 0),
+                                              d.get("caught without a failing input (fact / model mismatch only)", 0), d.get("missed", 0))
     return s
 
 
